@@ -174,6 +174,9 @@ def run(chk, replay=None):
                             "section sizes 0..3 / 0..2 exhaustively; names, ids, flags, types, classes, TTLs and RDATA lengths from boundary pools plus seeded random values",
                             "pointer arenas: 1..3 names, every target offset for a single pointer; label boundaries / pointer octets / two header offsets for several pointers",
                             "a pointer whose target no encoder could have written (header, middle of a label, type/class octets) is compared as drift only"]
+        # ---- specification growth (drift only): what an LLMNR responder does with one datagram (filter, handler chain, reply)
+        vlib.replay_cases(chk, "LLMNRResponder", vlib.cfg("G06_responder.cfg"), "g06.responder", "growth_responder")
+        chk.assumptions.append("growth (drift only): LLMNRResponder.tla -- RFC 4795 filter (QR, OPCODE), handler chain order/termination, reply id/QR/question section, header-bit constants (DESIGN 13.7 G06)")
     finally:
         shutil.rmtree(d, ignore_errors=True)
 
